@@ -65,12 +65,21 @@ func parseVersion1(reader *bufio.Reader) (*Header, error) {
 		return nil, ErrCantReadProtocolVersionAndCommand
 	}
 	tokens := strings.Split(line[:len(line)-2], SEPARATOR)
+
+	header := initVersion1()
+
+	// For "UNKNOWN", the rest of the line before CRLF must be ignored and
+	// the receiver must use the real connection endpoints
+	if len(tokens) >= 2 && tokens[1] == "UNKNOWN" {
+		header.TransportProtocol = UNSPEC
+		state.ProxyNormalV1Header.Inc(1)
+		return header, nil
+	}
+
 	if len(tokens) < 6 {
 		state.ProxyErrInvalidHeader.Inc(1)
 		return nil, ErrCantReadProtocolVersionAndCommand
 	}
-
-	header := initVersion1()
 
 	// Read address family and protocol
 	switch tokens[1] {
@@ -79,7 +88,8 @@ func parseVersion1(reader *bufio.Reader) (*Header, error) {
 	case "TCP6":
 		header.TransportProtocol = TCPv6
 	default:
-		header.TransportProtocol = UNSPEC
+		state.ProxyErrInvalidHeader.Inc(1)
+		return nil, ErrUnsupportedAddressFamilyAndProtocol
 	}
 
 	// Read addresses and ports
